@@ -126,6 +126,14 @@ Verdict(rec) ==
                ELSE IF Aux.biofull = 1 /\ ~HasStarters(rec.cfg) /\ ~Big /\ n <= 6 /\ Len(D) <= 8 /\ IdsUsable(rec.ids, U)
                        /\ Range(K) # BioResult(D, U, C, rec.ids, rec.flag = 1, Unit \div 1000)
                     THEN <<"drift", "bioconsert-result-differs-from-the-transcribed-algorithm">>
+               \* with starting algorithms: from the consensus rankings the starters were seen to return, in order
+               ELSE IF Aux.biofull = 1 /\ HasStarters(rec.cfg) /\ ~Big /\ n <= 6 /\ IdsUsable(rec.ids, U)
+                       /\ Len(rec.starts) >= 1
+                       /\ (\A s \in DOMAIN rec.starts : NoDupJson(rec.starts[s]) /\ IsRanking(RkOfJson(rec.starts[s]))
+                                                         /\ Dom(RkOfJson(rec.starts[s])) = U)
+                       /\ Range(K) # BioResultFrom([s \in DOMAIN rec.starts |-> RkOfJson(rec.starts[s])], FALSE, U, C,
+                                                   rec.ids, rec.flag = 1, Unit \div 1000)
+                    THEN <<"drift", "bioconsert-result-differs-from-the-transcribed-algorithm-with-starters">>
                ELSE <<"ok", "localopt">>
         \* ------------------------------------------------------------ C09
         St    == IF HasStarters(rec.cfg) THEN {RkOfJson(rec.starts[s]) : s \in DOMAIN rec.starts}
